@@ -52,6 +52,9 @@ static uint64_t fnv(uint64_t h, const void *p, size_t n)
 
 #define H0 1469598103934665603ULL
 
+/* C19 runs its copies also with SQFS_DIR_READER_DOT_ENTRIES; C10 cannot: with that flag answers depend on history by documentation */
+static unsigned int g_dir_reader_flags = 0;
+
 static void rset_close(rset_t *r)
 {
 	sqfs_drop(r->mr);
@@ -79,7 +82,7 @@ static int rset_open(rset_t *r, const char *path)
 	r->idtbl = sqfs_id_table_create(0);
 	if (r->idtbl == NULL || sqfs_id_table_read(r->idtbl, r->file, &r->super, r->cmp))
 		goto fail;
-	r->dr = sqfs_dir_reader_create(&r->super, r->cmp, r->file, 0);
+	r->dr = sqfs_dir_reader_create(&r->super, r->cmp, r->file, g_dir_reader_flags);
 	if (r->dr == NULL)
 		goto fail;
 	r->data = sqfs_data_reader_create(r->file, r->super.block_size, r->cmp, 0);
